@@ -29,7 +29,7 @@ def filters():
     return out, defs
 
 
-def build(d, tag, fmt, n_models, n_ap, perm, sord='wav-desc', seed=0, n_cols=2, distinct=True):
+def build(d, tag, fmt, n_models, n_ap, perm, sord='wav-desc', seed=0, n_cols=2, distinct=True, grids='same', dead=False):
     """Returns dict(md, names (physical order), table_order, flux (n_models, n_ap, n_wav on W_ASC), err, ap, pardict)."""
     rng = np.random.default_rng(seed * 23 + n_models * 5 + n_ap)
     names = ['sp_%s' % 'qbxamczk'[i] for i in range(n_models)]
@@ -44,7 +44,13 @@ def build(d, tag, fmt, n_models, n_ap, perm, sord='wav-desc', seed=0, n_cols=2, 
         shape = np.abs(shape) + 0.05
         for a in range(n_ap):
             flux[m, a] = (2.0 + m) * (1.0 + 0.8 * a + 0.15 * a * ((m + 1) % 3)) * shape
+    if dead:
+        flux[n_models - 1] = 0.0           # a model that emits nothing: must simply rank last (chi^2 >= 1e30), never first
     err = flux * 0.05
+    # per-file SEDs need not share a grid: odd models sit on a grid with the same length and end points but other interior points
+    W2 = W_ASC.copy()
+    W2[1:-1] = W2[1:-1] * np.array([1.05, 0.96, 1.04, 0.97, 1.03])
+    wavs = [W2 if (grids == 'interior' and fmt == 'v1' and m % 2 == 1) else W_ASC for m in range(n_models)]
     wav_file = W_ASC if sord == 'wav-asc' else W_ASC[::-1]
     idx_file = [int(np.argmin(np.abs(W_ASC - w))) for w in wav_file]
     md = os.path.join(d, tag)
@@ -54,20 +60,22 @@ def build(d, tag, fmt, n_models, n_ap, perm, sord='wav-desc', seed=0, n_cols=2, 
     if fmt == 'v1':
         pkgwriter.write_parameters(md, names, cols, order=perm)
         for m, nm in enumerate(names):
-            pkgwriter.write_sed_file(md, nm, wav_file, flux[m][:, idx_file], err[m][:, idx_file], apertures_au=ap)
+            wf = wavs[m] if sord == 'wav-asc' else wavs[m][::-1]
+            pkgwriter.write_sed_file(md, nm, wf, flux[m][:, idx_file], err[m][:, idx_file], apertures_au=ap)
     else:
         pkgwriter.write_parameters(md, table_order, {k: v[perm] for k, v in cols.items()})
         pkgwriter.write_cube(md, table_order, wav_file, flux[perm][:, :, idx_file], unc=err[perm][:, :, idx_file], apertures_au=ap)
     pardict = {names[m]: [cols['PAR%d' % (c + 1)][m] for c in range(n_cols)] for m in range(n_models)}
-    return {'md': md, 'names': names, 'table_order': table_order, 'flux': flux, 'err': err, 'ap': ap, 'pardict': pardict, 'colnames': list(cols)}
+    return {'md': md, 'names': names, 'table_order': table_order, 'flux': flux, 'err': err, 'ap': ap, 'pardict': pardict, 'colnames': list(cols), 'wavs': wavs}
 
 
 def exact_convolved(pk, fdefs, filt_objs):
-    """conv[m, b, a] = sum_i F_m,a(nu_i) R_i with exact R (package independent)."""
-    nu = pkgwriter.C_M_S / (W_ASC * 1e-6)
-    order = np.argsort(nu)
+    """conv[m, b, a] = sum_i F_m,a(nu_i) R_i with exact R on the model's own grid (package independent)."""
     out = np.zeros((pk['flux'].shape[0], len(fdefs), pk['flux'].shape[1]))
-    for b, ((nm, cw, fx, fy), f) in enumerate(zip(fdefs, filt_objs)):
-        R = np.array([float(x) for x in convref.rebin_exact(fx, np.asarray(f.response), nu[order])[0]])
-        out[:, b, :] = np.sum(pk['flux'][:, :, order] * R[None, None, :], axis=2)
+    for m in range(pk['flux'].shape[0]):
+        nu = pkgwriter.C_M_S / (pk['wavs'][m] * 1e-6)
+        order = np.argsort(nu)
+        for b, ((nm, cw, fx, fy), f) in enumerate(zip(fdefs, filt_objs)):
+            R = np.array([float(x) for x in convref.rebin_exact(fx, np.asarray(f.response), nu[order])[0]])
+            out[m, b, :] = np.sum(pk['flux'][m][:, order] * R[None, :], axis=1)
     return out
